@@ -456,7 +456,9 @@ class Triangular(Composite):
         return kind if kind in ("tril", "triu") else "tril"
 
     def make(self, rng, kind, n, m, batch, depth, dtype):
-        s = _base(self.name, kind, n, m, batch, dtype, rng, tensor_arg=rng.random() < 0.5)
+        # neg_diag: every other diagonal entry negative (L S with S = diag(+-1): the same L L^T, e.g. an unconstrained variational factor)
+        neg = rng.random() < 0.2
+        s = _base(self.name, kind, n, m, batch, dtype, rng, tensor_arg=neg or rng.random() < 0.5, **({"neg_diag": True} if neg else {}))
         if not s["opt"]["tensor_arg"]:
             s["children"] = [_gen(rng, kind, n, n, batch, 0, dtype, allow=["Dense"])]
         return s
@@ -465,6 +467,9 @@ class Triangular(Composite):
         upper = spec["kind"] == "triu"
         if spec["opt"]["tensor_arg"]:
             a = _cast(raw_matrix(g, spec["kind"], spec["n"], spec["n"], spec["batch"], {}), spec)
+            if spec["opt"].get("neg_diag"):
+                sg = torch.tensor([1.0 if j % 2 == 0 else -1.0 for j in range(spec["n"])], dtype=a.dtype)
+                a = (a * sg.unsqueeze(-1) if upper else a * sg).contiguous()
             return _O().TriangularLinearOperator(a, upper=upper), a, [("tensor", a)]
         k = kids[0]
         return _O().TriangularLinearOperator(k.op, upper=upper), k.dense, k.tensors
